@@ -8,6 +8,7 @@ import (
 	"io"
 	"math/rand"
 	"os"
+	"runtime"
 	"strings"
 	"time"
 
@@ -77,6 +78,8 @@ func recordLexer(args []string) (any, error) {
 	defer f.Close()
 	enc := json.NewEncoder(f)
 	n, ev := 0, 0
+	hung := false
+	misses := []any{}
 	err = readNDJSON(args[0], func(raw json.RawMessage) error {
 		var in struct {
 			S []int `json:"s"`
@@ -84,14 +87,27 @@ func recordLexer(args []string) (any, error) {
 		if err := json.Unmarshal(raw, &in); err != nil {
 			return err
 		}
-		for _, l := range lexTrace(bytesOf(in.S)) {
-			_ = enc.Encode(l)
-			ev++
+		if hung {
+			return nil // the stuck lexer keeps spinning: the first hanging input is reported and the sweep stops
+		}
+		src := bytesOf(in.S)
+		ch := make(chan []map[string]any, 1)
+		go func() { ch <- lexTrace(src) }()
+		select {
+		case tr := <-ch:
+			for _, l := range tr {
+				_ = enc.Encode(l)
+				ev++
+			}
+		case <-time.After(5 * time.Second):
+			hung = true
+			misses = append(misses, map[string]any{"sig": fmt.Sprintf("lexer-hang:%q", src),
+				"detail": map[string]any{"source": src, "problem": "the lexer did not terminate on this input"}})
 		}
 		n++
 		return nil
 	})
-	return map[string]any{"evaluations": n, "distinct": n, "mismatches": []any{}, "samples": []any{}, "extra": map[string]any{"events": ev}}, err
+	return map[string]any{"evaluations": n, "distinct": n, "mismatches": misses, "samples": []any{}, "extra": map[string]any{"events": ev, "stopped_after_hang": hung}}, err
 }
 
 // captureStderr runs f with os.Stderr redirected to a pipe.
@@ -189,6 +205,9 @@ var tokenPool = []string{"a", "x1", "1", "2.5", "0x1f", `"s"`, "'q'", "`r`", "tr
 	"f(", "len(a)", "[1, 2]", `{"k": 1}`, "a[0]", "a[1:2]", "a.b", `"""m"""`, "1e", "0x", "1e+", "1.2.3", "'", `"`, "`", `"\z"`, "&", "|", "@", "\x00", "\xff", "é",
 	"\u00a0", "\u3000", "\u2028", "\u0085", "\u0663", "\ufeff", "\ufffd", "\U0001f600", "名字", "\r", "\v", "\f", "\r\n", "x\u3000", "\u00a0y"}
 
+var coldTexts = []string{"", " ", "\n", "#", "#\n", ";", "(", ")", "x", "x =", "\"", "'", "`", "\"\"\"", "1e", "0x", "\xff", "é", "\r\n", "if", "}", "\n\n x = (",
+	"a = 1\nb = ", "x = \"\"\"a\nb", "f(1,\n2", "\ufeff", "\u3000"}
+
 // parse-total -seed S -n N [-inputs file] [-programs file]: the parse postcondition on many texts.
 func parseTotal(args []string) (any, error) {
 	fs := flag.NewFlagSet("parse-total", flag.ContinueOnError)
@@ -277,6 +296,16 @@ func parseTotal(args []string) (any, error) {
 		"a = b = 3", "x = [1,,2]", "x = {1}", "x = {\"a\"}", "else {}", "elif 1 {}", "if 1 {} else", "if 1 {} else {} else {}", "break break", "x = !",
 		"x = 1 +", "x = + ", "x = (", "x = ()", "f(a=)", "f(=1)", "f(1 2)", "a[1 2]", "a[::::]", "a[1:2:3:4]", "x = 'a' 'b'", "x = \"\\", "\xef\xbf\xbd", "x = \"\xef\xbf\xbd\""} {
 		try("malformed", s)
+	}
+	// cold start: the same postcondition when the text is the first thing a parser object ever sees (the pools are emptied by
+	// two garbage collections before each parse, as they are at process start and after an idle period)
+	for _, s := range coldTexts {
+		runtime.GC()
+		runtime.GC()
+		if p := checkParse(s); p != "" && !hung {
+			sum.Evaluations++
+			sum.miss(fmt.Sprintf("parse-cold:%q", s), map[string]any{"source": s, "kind": "first text of a fresh parser", "problem": p})
+		}
 	}
 	// valid programs with one token deleted / duplicated / replaced (token boundaries from the real lexer)
 	if *programs != "" {
